@@ -45,6 +45,8 @@ def gen(rng, tier, dist):
         # the ROOT table switched as a whole by one of its own toggles (rSelf(.., rEnabledBy(on)) on the table
         # handed to load_from_file): every line of the file waits for the line of /on
         opts["p_self0"] = 0.9 if c % 4 == 1 else 0.0
+        # every 6th application: a table whose leaves form one long dependency chain
+        opts["p_chain"] = 0.9 if c % 6 == 2 else 0.0
         app = sc.static_app() if static else sc.gen_app(rng, opts)
         ref = sc.Ref(app)
         if not ref.flat:
@@ -105,6 +107,48 @@ def gen(rng, tier, dist):
                 keep = [j for j in keep if all(ref.flat[h].path not in idx_of or idx_of[ref.flat[h].path] in keep
                                                for h in ref.flat[port_of[paths[j]]].hard)]
             groups.append(perms_of(keep, 8))
+        # sub-files in which two lines are joined ONLY through three or more ports whose lines are
+        # dropped (the order has to hold through every port without a line, however many there are)
+        graph = {i: deps_of(ref, i) for i in range(len(ref.flat))}
+        line_ix = {port_of[p]: idx_of[p] for p in paths}
+        def bfs(src):
+            dd, queue = {src: 0}, [src]
+            while queue:
+                x = queue.pop(0)
+                for y in graph[x]:
+                    if y not in dd:
+                        dd[y] = dd[x] + 1
+                        queue.append(y)
+            return dd
+        reach = {i: bfs(i) for i in line_ix}
+        cand = [(dI, aI) for dI in sorted(line_ix) for aI, dl in sorted(reach[dI].items()) if dl >= 4 and aI in line_ix]
+        rng.shuffle(cand)
+        for dI, aI in cand[:2]:
+            mid = {x for x in reach[dI] if x not in (dI, aI) and aI in (reach[x] if x in reach else bfs(x))}
+            drop = {line_ix[x] for x in mid if x in line_ix}
+            changed = True
+            while changed:
+                changed = False
+                for p in paths:
+                    j = idx_of[p]
+                    if j in drop:
+                        continue
+                    for h in ref.flat[port_of[p]].hard:
+                        hp = ref.flat[h].path
+                        if hp in idx_of and idx_of[hp] in drop:
+                            drop.add(j)
+                            changed = True
+            if line_ix[dI] in drop or line_ix[aI] in drop or len(drop) < 3:
+                continue
+            keep = [j for j in full if j not in drop]
+            groups.append(perms_of(keep, 8))
+            # ... and the two ends alone, in both orders
+            two = [line_ix[aI], line_ix[dI]]
+            if all(ref.flat[h].path not in idx_of or idx_of[ref.flat[h].path] in two
+                   for j in two for h in ref.flat[port_of[paths[j]]].hard):
+                groups.append([two, list(reversed(two))])
+            dist["files with two lines joined only through >= 3 ports without a line"] = \
+                dist.get("files with two lines joined only through >= 3 ports without a line", 0) + 1
         gtxt = ";".join("/".join((".".join("%d" % j for j in pm) or "-") for pm in g) for g in groups)
         # edges the oracle checks: (dependee path, dependent path)
         # (also the references of ports without a line that can be reached from a line: the order
